@@ -20,6 +20,8 @@ pub enum Kind {
     /// (a no-op when processed before that order's placement)
     CancelNew,
     ModifyNew,
+    /// cancel aimed at an order that was already cancelled before the step (a no-op wherever it is processed)
+    CancelDead,
 }
 
 #[derive(Clone, Copy, Debug, PartialEq, Eq, Hash, PartialOrd, Ord)]
@@ -60,9 +62,20 @@ pub fn run_batch_in<const A: usize>(su: Setup, multi: bool, items: &[Item], scri
         env.place(a, false, 1_000_000, 1, Some(5000)).map_err(|_| "setup")?;
     }
     for (i, it) in items.iter().enumerate() {
-        if matches!(it.kind, Kind::Cancel | Kind::Modify) {
+        if matches!(it.kind, Kind::Cancel | Kind::Modify | Kind::CancelDead) {
             let id = env.place(it.asset, true, 1, 2, Some(10 + i as u32)).map_err(|_| "setup")?;
             targets[i] = Some((it.asset, id.1));
+        }
+    }
+    if items.iter().any(|it| it.kind == Kind::CancelDead) {
+        // the targets of the dead cancels are placed and cancelled before the judged step
+        let mut pre0 = ScriptRng::new(vec![], 4241);
+        env.step(&mut pre0);
+        for (i, it) in items.iter().enumerate() {
+            if it.kind == Kind::CancelDead {
+                let (a, id) = targets[i].unwrap();
+                env.cancel(a, id);
+            }
         }
     }
     if su.trading == 3 {
@@ -85,7 +98,7 @@ pub fn run_batch_in<const A: usize>(su: Setup, multi: bool, items: &[Item], scri
         match it.kind {
             Kind::Limit => ids[i] = Some(env.place(it.asset, true, 1, 3, Some(200 + i as u32)).map_err(|_| "place")?),
             Kind::Market => ids[i] = Some(env.place(it.asset, true, 1, 3, None).map_err(|_| "place")?),
-            Kind::Cancel => {
+            Kind::Cancel | Kind::CancelDead => {
                 let (a, id) = targets[i].unwrap();
                 env.cancel(a, id)
             }
@@ -121,13 +134,17 @@ pub fn run_batch_in<const A: usize>(su: Setup, multi: bool, items: &[Item], scri
                 continue;
             }
         }
+        if items[i].kind == Kind::CancelDead {
+            unobserved.push(i);
+            continue;
+        }
         let stamp = match items[i].kind {
             Kind::Limit | Kind::Market => {
                 let (a, id) = ids[i].unwrap();
                 let o = env.book(a).order(id);
                 o.arr_time
             }
-            Kind::Cancel | Kind::Modify | Kind::CancelNew | Kind::ModifyNew => {
+            Kind::Cancel | Kind::Modify | Kind::CancelNew | Kind::ModifyNew | Kind::CancelDead => {
                 let (a, id) = targets[i].unwrap();
                 let o = env.book(a).order(id);
                 o.end_time
@@ -151,11 +168,13 @@ pub fn run_batch_in<const A: usize>(su: Setup, multi: bool, items: &[Item], scri
             return Err(format!("{} positions unaccounted for, one instruction without a stamp", free.len()));
         }
         order[free[0]] = i;
-        // a no-op must have come before the placement it was aimed at
-        let j = (0..i).rev().find(|&j| items[j].kind == Kind::Limit).unwrap();
-        let pj = order.iter().position(|&x| x == j).unwrap();
-        if free[0] > pj {
-            return Err(format!("instruction {} ({:?}) was processed after the placement of its target and yet had no effect", i, items[i]));
+        if items[i].kind != Kind::CancelDead {
+            // a no-op must have come before the placement it was aimed at
+            let j = (0..i).rev().find(|&j| items[j].kind == Kind::Limit).unwrap();
+            let pj = order.iter().position(|&x| x == j).unwrap();
+            if free[0] > pj {
+                return Err(format!("instruction {} ({:?}) was processed after the placement of its target and yet had no effect", i, items[i]));
+            }
         }
     }
     Ok((order, rng.draws(), rng.bits()))
@@ -485,7 +504,7 @@ fn content_independence<const A: usize>(acc: &Acc, multi: bool, n: usize, summar
 
 fn content_independence_in<const A: usize>(acc: &Acc, su: Setup, multi: bool, n: usize, summary: &mut Vec<serde_json::Value>) {
     // (a re-pricing modify is observed through the trade it causes: only with trading on)
-    let kinds: Vec<Kind> = if su.trading == 0 || su.trading == 3 { vec![Kind::Limit, Kind::Market, Kind::Cancel, Kind::Modify, Kind::CancelNew, Kind::ModifyNew] } else { vec![Kind::Limit, Kind::Market, Kind::Cancel, Kind::CancelNew] };
+    let kinds: Vec<Kind> = if su.trading == 0 || su.trading == 3 { vec![Kind::Limit, Kind::Market, Kind::Cancel, Kind::Modify, Kind::CancelNew, Kind::ModifyNew, Kind::CancelDead] } else { vec![Kind::Limit, Kind::Market, Kind::Cancel, Kind::CancelNew, Kind::CancelDead] };
     let mut words: Vec<Vec<Item>> = vec![vec![]];
     for _ in 0..n {
         let mut next = Vec::new();
@@ -504,7 +523,8 @@ fn content_independence_in<const A: usize>(acc: &Acc, su: Setup, multi: bool, n:
     // inferred when it was a no-op), and only behind a limit order it can aim at
     words.retain(|w| {
         let same: Vec<usize> = (0..w.len()).filter(|&i| matches!(w[i].kind, Kind::CancelNew | Kind::ModifyNew)).collect();
-        same.len() <= 1 && same.iter().all(|&i| w[..i].iter().any(|x| x.kind == Kind::Limit))
+        let dead = w.iter().filter(|x| x.kind == Kind::CancelDead).count();
+        same.len() + dead <= 1 && same.iter().all(|&i| w[..i].iter().any(|x| x.kind == Kind::Limit))
     });
     let scripts = all_index_scripts(n);
     // reference: limit-only batch on asset 0
